@@ -1,6 +1,6 @@
 /-
   C11 — a saved or aged Colang 2 conversation state continues exactly like the live one.
-  Property theorems only (helper lemmas: Lemmas/Serialize.lean, Lemmas/CleanUp.lean).
+  Property theorems only (helper lemmas: Lemmas/Serialize*.lean, Lemmas/CleanUp*.lean).
 
   What is carried by theorems here (function level, unbounded):
     * T1  `roundtrip_tree`, `encode_total_iff`, `roundtrip_lossy`  — `decode_from_dict ∘ json ∘ encode_to_dict` is the
@@ -8,17 +8,28 @@
     * T2  `roundtrip_dag` — the `refs` discipline over an abstract identity-labelled universe (post-order
           registration, lists transparent): decode ∘ encode rebuilds every shared graph;
     * `cleanup_*` — frame facts of `_clean_up_state`.
-  What rests on correspondence/oracle only (harness/props/C11.py, every run):
-    * T3  behaviour_preserved / cleanup_bisim: "the restored / aged state reacts to every later event
-          sequence exactly as the live one" — there is no whole-interpreter model in this check; the
-          claim is tested on the real interpreter at every cut point of generated histories.
+    * T1↔T2 `erase_commutes_with_encode`, `erase_commutes_with_roundtrip` — on tree-shaped values both encoders write the same
+          abstract encoding and the round-trip square commutes;
+    * restore, index component: `index_maps_roundtrip/_faithful`, `index_instances_roundtrip/_faithful`;
+    * T3 (phase 4), function by function over the whole-interpreter model `CoreVM` (C09's): the relation `Bisim.Aged` and the
+          `aged_*` theorems — see the status list in section "T3, the part that is proved".
+  What rests on correspondence/oracle (harness/props/C11.py, every run):
+    * T3 as a whole (`CleanupBisim`, stated below, NOT proved; `behaviour_preserved` for save/restore): "the restored / aged
+          state reacts to every later event sequence exactly as the live one" is tested on the real interpreter at every cut
+          point of generated histories, and through the public API (`api` cases); the hypotheses of the `aged_*` theorems
+          (`Aged`, `ActParentsKept`) are evaluated on the real states at run time.
 -/
 import NemoVerif.Lemmas.Serialize
 import NemoVerif.Lemmas.CleanUp
 import NemoVerif.Lemmas.SerializeRefs
 import NemoVerif.Lemmas.SerializeLossy
 import NemoVerif.Lemmas.SerializeShared
+import NemoVerif.Lemmas.SerializeErase
+import NemoVerif.Lemmas.SerializeIndex
 import NemoVerif.Models.CoreVM.Run
+import NemoVerif.Lemmas.CleanUpBisimWrites
+import NemoVerif.Lemmas.CleanUpBisimHeads
+import NemoVerif.Lemmas.CleanUpBisimLoops
 namespace NemoVerif.C11
 open NemoVerif NemoVerif.Serialize NemoVerif.CleanUp
 
@@ -336,7 +347,333 @@ example : removable 10000000 ageMicros []
     { uid := "a", flowId := "f", parent := some "m", children := [], status := .finished, updated := 0,
       activated := 0, actionUids := [], heads := [], scopeFlows := [] } = true := by decide
 
-/-! ## T3 — stated over the whole-interpreter model `CoreVM` (statement only; decided by correspondence) -/
+
+/-! ## The link between T1 and T2 (encoder half): erasing the identities commutes with encoding -/
+
+section EraseLink
+open NemoVerif.Shared NemoVerif.Refs
+
+/-- On a tree-shaped labelled value (no identity twice, none registered yet) the encoder with `refs` (T2, `Shared.encodeC`)
+    and the sharing-free encoder (T1, `Serialize.encode`, on the value with the identities erased) write the SAME
+    abstract encoding `skel t`: the first as `render` (every definition carries `__id`, lists are marked), the second as
+    `renderT` (the same text without the identity bookkeeping: `wrapT` instead of `wrapDef`).
+    Hypotheses: the tags fit the children and are the encoder's own choice (`erase t = some v`), and the T1 encoder accepts
+    the value (`encode v = .ok j`; it rejects e.g. comparison operators outside the generated table). -/
+theorem erase_commutes_with_encode (t : CV) (refs : List Nat) (v : PV) (j : J) (ht : TreeShaped refs t)
+    (hv : erase t = some v) (hj : encode v = .ok j) :
+    (encodeC refs t).1 = render (skel t) ∧ j = renderT (skel t) :=
+  ⟨encodeC_tree t refs ht, erase_encode t v j hv hj⟩
+
+/-- non-vacuity: `{"k": (1, [True])}` with identities 1 (dict), 2 (tuple), 3 (list) -/
+example :
+    let t : CV := .node 1 (.dictStr ["k"]) [.node 2 .tuple [.leaf (.int 1), .node 3 .list [.leaf (.bool true)]]]
+    TreeShaped [] t ∧ erase t = some (.dict [(.str "k", .tuple [.int 1, .list [.bool true]])]) ∧
+      (encode (.dict [(.str "k", .tuple [.int 1, .list [.bool true]])])).toOption.isSome := by
+  refine ⟨⟨by simp [ids, idsList], by simp⟩, ?_, ?_⟩
+  · simp [erase, eraseList, eraseTag, zipStr, Scalar.toPV]
+  · simp [encode, encodeList, encodeVals, allStr, Key.isStr, bind, Except.bind, pure, Except.pure, Except.toOption]
+
+/-- **the square commutes** on encodable tree-shaped values: encoding with `refs` and decoding with `refs` gives `t` back (T2),
+    encoding and decoding without gives `erase t` back (T1), and the two decoders were fed their own rendering (`render` /
+    `renderT`) of the SAME abstract encoding `skel t` — erasing the identities commutes with the whole round trip.
+    (Derived from T1, T2 and `erase_encode`; a direct proof that `decode ∘ renderT = erase ∘ decodeS` on arbitrary
+    well-formed encodings, which would make T1 a corollary of T2, is not given.) -/
+theorem erase_commutes_with_roundtrip (H : Nat → CV) (t : CV) (v : PV) (hc : Consistent H t) (hw : WfCV t = true)
+    (ht : TreeShaped [] t) (hv : erase t = some v) (he : Encodable v = true) :
+    (∃ tbl, decodeC [] (render (skel t)) = some (t, tbl)) ∧ decode (renderT (skel t)) = .ok v ∧
+    encode v = .ok (renderT (skel t)) ∧ (encodeC [] t).1 = render (skel t) := by
+  obtain ⟨j, hj, hd⟩ := Serialize.roundtrip v he
+  have hjt := erase_encode t v j hv hj
+  obtain ⟨tbl, h2, _⟩ := roundtrip_shared H t hc hw
+  have hct := encodeC_tree t [] ht
+  rw [hct] at h2
+  subst hjt
+  exact ⟨⟨tbl, h2⟩, hd, hj, hct⟩
+
+/-- non-vacuity of the five hypotheses: `{"k": (1,)}` with identities 1 (dict) and 2 (tuple) -/
+example :
+    let tup : CV := .node 2 .tuple [.leaf (.int 1)]
+    let t : CV := .node 1 (.dictStr ["k"]) [tup]
+    let H : Nat → CV := fun i => if i = 2 then tup else t
+    Consistent H t ∧ WfCV t = true ∧ TreeShaped [] t ∧ erase t = some (.dict [(.str "k", .tuple [.int 1])]) ∧
+      Encodable (.dict [(.str "k", .tuple [.int 1])]) = true := by
+  refine ⟨?_, ?_, ⟨by simp [ids, idsList], by simp⟩, ?_, ?_⟩
+  · simp [Consistent, ConsistentList]
+  · simp [WfCV, WfCVList, tagOk]
+  · simp [erase, eraseList, eraseTag, zipStr, Scalar.toPV]
+  · simp [Encodable, EncodableVals, EncodableList]
+
+end EraseLink
+
+/-! ## T3 (restore), the index component: the dispatch maps of every CoreVM state survive save/restore -/
+
+section RestoreIndex
+open NemoVerif.CoreIndex
+
+/-- `state.event_matching_heads` (str-keyed dict of lists of `(flow_uid, head_uid)` tuples) and
+    `state.event_matching_heads_reverse_map` (a dict whose KEYS are such tuples: an item list since the repair d13eeb5) of
+    EVERY index state come back from `decode_from_dict ∘ json ∘ encode_to_dict` unchanged … -/
+theorem index_maps_roundtrip (ix : IState) : (encode (mapsPV ix) >>= decode) = .ok (mapsPV ix) :=
+  roundtrip_tree _ (mapsPV_encodable ix)
+
+/-- … and that reading of the maps is faithful (equal Python values ⇒ equal maps): the restored index component of a
+    CoreVM state IS the saved one, so C09's theorems about it (`IndexOK`: exact, consistent, owned) hold of the restored state.
+    (`json_to_state` re-creates the head callbacks; in the model a callback is the `applyOp` discipline itself.) -/
+theorem index_maps_faithful (ix ix' : IState) (h : mapsPV ix = mapsPV ix') : ix.index = ix'.index ∧ ix.rev = ix'.rev :=
+  mapsPV_inj ix ix' h
+
+/-- … and so do the instances with their heads (the index-relevant part of `flow_states`: uid, flow status, per head uid,
+    position, status; `FlowState` / `FlowHead` dataclass instances whose constructors accept exactly these fields — checked
+    against the generated class table) -/
+theorem index_instances_roundtrip (ix : IState) : (encode (instsPV ix) >>= decode) = .ok (instsPV ix) :=
+  roundtrip_tree _ (instsPV_encodable ix)
+
+/-- … faithfully: equal Python values ⇒ the same instances, statuses, heads, positions and head statuses in the same order.
+    Together with `index_maps_faithful`: the restored index component equals the saved one up to the ghost field `elem`
+    (the element name at the head's position — not a Python attribute; `json_to_state` re-installs the callbacks that
+    recompute it, and C09's exactness theorem says the maps agree with that recomputation). -/
+theorem index_instances_faithful (ix ix' : IState) (h : instsPV ix = instsPV ix') : ix.insts.map instCore = ix'.insts.map instCore := by
+  simp only [instsPV, PV.dict.injEq] at h
+  exact instsPV_inj _ _ h
+
+example : instCore { uid := "m", status := .started, heads := [{ uid := "h0", pos := 3, status := .active, elem := some "E" }] } =
+    ("m", .started, [("h0", 3, .active)]) := rfl
+
+end RestoreIndex
+
+/-! ## T3, the part that is proved: `CoreVM` does not depend on what `_clean_up_state` removes — function by function
+
+`Bisim.Aged rm s s'` (Lemmas/CleanUpBisimFns.lean): `s'` is `s` without the instances `rm`: `flow_states` and the index
+component filtered (both dispatch maps untouched), the remaining records equal up to occurrences of discarded uids in
+`child_flow_uids` / scope lists (both sides filtered: a second activating parent keeps the dangling uid) and the time stamp (the
+aged record is at least as old), `flow_id_states` entries filtered, the action
+table a part of the live one that contains what kept instances refer to, everything else equal, the aged clock later;
+only done instances are in `rm`.  `Bisim.Rel2` = two observations cannot be told apart, `Bisim.Sim2` = two runs end in
+related states with related results (or the same exception).
+
+Status per CoreVM function (the deliverable of phase 4; invariants: I1 = C09 `IndexOK` + `NoPos`, true of every `VM` by
+construction; I2 = `Bisim.ActParentsKept`, the parent of an activated instance is kept — false of the code as it is,
+finding `cleanup-dangling-parent`, established by fixes/C11-cleanup-dangling-parent.diff, checked at run time):
+
+  look-ups `getInst?`/`getInst`/`getInstX?`/`getInstX`/`getCfg` on kept uids, `bucket`    proved (`aged_lookups_agree`, `aged_bucket_eq`)
+  every candidate head belongs to a kept instance                                        proved from I1 (`aged_candidates_are_kept`)
+  `getAllHeadCandidates` (`_get_all_head_candidates`)                                    proved from I1 (`aged_candidates_agree`)
+  `isReferenceActivated`, `isChildActivated` (parent look-ups of activated flows)        proved from I2 (`aged_activation_lookups_agree`)
+  `pushEvent`, `pushLeftEvent`, `modInstX` on a kept uid with a relation-respecting update   proved (`aged_push_event`, `aged_mod_inst`)
+  `applyOp op` for EVERY index write about a kept instance (all of `CoreIndex.Op` but `removeInst`) proved (`aged_index_write`, `aged_simple_index_write`)
+  `setFlowStatus` (status + time stamp), `dropHeads` (`heads.clear()` + unregister)      proved (`aged_set_flow_status`, `aged_drop_heads`)
+  `abortFlow c … deactivate=True` on a discardable instance (done, not activated)        proved: a no-op (`deactivating_a_discardable_instance_is_a_noop`)
+  the expression evaluator `evalExpr`/`evalBase` (every expression form incl. `$ref.attr` on flow / action / event
+   objects, `uid()`, interpolation with its try/except), `lookupVar`, `attrOf`, `ctxHolder`, `getCtx`, `setCtxVar`,
+   `evalIn`, `evalArgs`, `evalEmpty`                                                   proved up to the model giving up (`aged_eval_agrees`, `aged_context_access`)
+  event construction: `flowObjOf`, `FlowState.get_event` (`flowGetEvent`, `flowStartEvent`), `Action.get_event`
+   (`actionGetEvent`), the throw-away objects (`tempFlowObj`, `tempAction`, `instanceArguments`), `resolveRef`,
+   `getEventName` (`get_event_name_from_element`), `getEvent` (`get_event_from_element`)     proved up to the model giving up (`aged_events_agree`)
+  `nameFor` (what `_flow_head_changed` computes), `setHeadPos` (`head.position = p`), `setHeadStatus` (`head.status = st`),
+   incl. the branch where the callback raises after the head was unregistered           proved up to the model giving up (`aged_head_writes`)
+  `setAction` (`state.actions[uid] = a`)                                                  proved (`Bisim.Aged.setAction`)
+  `updateActionStatusByEvent` (loop over ALL instances; the live iterations over discarded ones do nothing)   proved from I1 (`aged_update_action_status`)
+  `generateUmimEvent` (`_generate_umim_event`), `failedEvent`, `releaseAction` for an action of a kept instance   proved (`aged_outgoing_and_release`)
+  `restartActivated` (restart of an activated flow at the end of `_abort_flow` / `_finish_flow`)               proved from I2 (`aged_restart_activated`)
+  `abortFlow`: deactivation loops over `child_flow_uids` (the aged list is the live one filtered; the skipped iterations
+   are no-ops, see above; all other pieces — `isReferenceActivated`, `isChildActivated`, `releaseAction`, `dropHeads`,
+   `setFlowStatus`, `failedEvent`, `restartActivated` — are proved), removal from the parent's child list      not reached (every piece it reads is covered above; needs I2 and the
+                                                                                         loop-over-filtered-list argument)
+  `eventMatchingScore` (reads `state.actions` for the start arguments of the event's action)   needs: actions named by queued events belong to kept instances — not reached
+  `handleEventMatching` (`createEventReference`, `startFlow` look up `source_flow_instance_uid` of the event being
+   processed), `processInternalEvent`, `advanceHeadFront`/`slide`/`finishFlow`, EndScope     need: uids carried by queued events name kept instances (they are produced after the
+                                                                                         clean-up of the same `run_to_completion`) — not reached
+  `referenceActivatedInstance` (iterates `flow_id_states[id]`, the aged list is filtered) removed entries are skipped (`activated = 0`) — not reached
+  `flowHierarchy` (stops at a discarded ancestor)                                        the two runs DIFFER here (shorter list); its only use is logging — not reached
+  `cleanUpState` itself establishes `Aged` between the live and the aged run            not reached in CoreVM (needs link invariants C09 knows to be violated); function level:
+                                                                                         `cleanup_removes_exactly`, `cleanup_frame`, `cleanup_keeps_*` on the `CleanUp` model (tied to
+                                                                                         the real `_clean_up_state` by the clean-up differential); on the REAL states the relation is
+                                                                                         checked after every event of every aged run (harness, `aged-relation-checked`)
+
+"Up to the model giving up" (`Bisim.Sim2U`, `Bisim.Diag`): both runs give the same value or raise the same Python exception
+in `Aged` states — or one of them stops with a MODEL error (`unsupported` / `outOfFuel` / `guardFailed`).  The model leaves
+its fragment exactly where Python would follow a reference to a discarded instance (the object lives on through the reference;
+the model has no heap); `CleanupBisim` speaks about continuations on which both runs stay inside the model, so nothing is lost.
+`attemptPy` (the interpreter's `try … except Exception`) catches Python exceptions only, so the relation composes through it.
+-/
+
+section T3proved
+open NemoVerif.CoreVM NemoVerif.CoreIndex NemoVerif.C11.Bisim
+
+/-- look-ups by uid of a kept instance cannot tell the aged state from the live one (records up to `XRel`) -/
+theorem aged_lookups_agree {rm : List FUid} {s s' : VM} (h : Aged rm s s') {f : FUid} (hk : keepB rm f = true) (n : String) :
+    findInst s'.ixs.ix f = findInst s.ixs.ix f ∧
+    Rel2 (XRel rm s.r.clock s'.r.clock) (getInstX f) (getInstX f) s s' ∧
+    Rel2 Eq (getCfg n) (getCfg n) s s' :=
+  ⟨h.findInst_kept hk, h.rel_getInstX hk, h.rel_getCfg n⟩
+
+/-- `state.event_matching_heads.get(name, [])` is the same list -/
+theorem aged_bucket_eq {rm : List FUid} {s s' : VM} (h : Aged rm s s') (nm : String) :
+    bucket s'.ixs.ix nm = bucket s.ixs.ix nm := h.bucket nm
+
+/-- every head the index offers as a candidate belongs to an instance that is kept (C09 `IndexOK`, `NoPos`) -/
+theorem aged_candidates_are_kept {rm : List FUid} {s s' : VM} (h : Aged rm s s') {nm : String} {k : CoreIndex.Key}
+    (hk : k ∈ bucket s.ixs.ix nm) : keepB rm k.1 = true := h.candidate_kept hk
+
+/-- `_get_all_head_candidates`: same candidates in the same order, or the same exception -/
+theorem aged_candidates_agree {rm : List FUid} {s s' : VM} (h : Aged rm s s') (name : String) :
+    Rel2 Eq (getAllHeadCandidates name) (getAllHeadCandidates name) s s' := h.rel_getAllHeadCandidates name
+
+/-- `_is_reference_activated_flow` / `_is_child_activated_flow` — given that parents of activated instances are kept -/
+theorem aged_activation_lookups_agree {rm : List FUid} {s s' : VM} (h : Aged rm s s') (hp : ActParentsKept rm s)
+    {f : FUid} (hk : keepB rm f = true) :
+    Rel2 Eq (isReferenceActivated f) (isReferenceActivated f) s s' ∧ Rel2 Eq (isChildActivated f) (isChildActivated f) s s' :=
+  ⟨h.rel_isReferenceActivated hp hk, h.rel_isChildActivated hp hk⟩
+
+theorem aged_push_event {rm : List FUid} {s s' : VM} (h : Aged rm s s') (e : Event) :
+    Sim2 rm (fun _ _ => True) (pushEvent e) (pushEvent e) s s' ∧ Sim2 rm (fun _ _ => True) (pushLeftEvent e) (pushLeftEvent e) s s' :=
+  ⟨sim_pushEvent h e, sim_pushLeftEvent h e⟩
+
+theorem aged_mod_inst {rm : List FUid} {s s' : VM} (h : Aged rm s s') {f : FUid} (hk : keepB rm f = true) (g g' : InstX → InstX)
+    (hg : ∀ x x', XRel rm s.r.clock s'.r.clock x x' → XRel rm s.r.clock s'.r.clock (g x) (g' x'))
+    (hacts : ∀ x, (g x).actionUids = x.actionUids) :
+    Aged rm { s with r := { s.r with fx := OMap.modify f g s.r.fx } } { s' with r := { s'.r with fx := OMap.modify f g' s'.r.fx } } :=
+  h.modInstX hk g g' hg hacts
+
+theorem aged_simple_index_write {rm : List FUid} {s s' : VM} (h : Aged rm s s') {f : FUid} (hk : keepB rm f = true) {op : Op}
+    (hop : SimpleOpOn f op) : Sim2 rm (fun _ _ => True) (applyOp op) (applyOp op) s s' := sim_applyOp_simple h hk hop
+
+/-- every index write (`CoreIndex.Op` except the clean-up's own `removeInst`: positions, statuses, forks, head removal,
+    main restart, flow status, new instance) about a kept instance: same guard outcome, related states -/
+theorem aged_index_write {rm : List FUid} {s s' : VM} (h : Aged rm s s') (op : Op) (hk : keepB rm (opTarget op) = true)
+    (hr : isRemove op = false) : Sim2 rm (fun _ _ => True) (applyOp op) (applyOp op) s s' := sim_applyOp h op hk hr
+
+/-- `_abort_flow(state, c, deactivate_flow=True)` on a done, non-activated instance (exactly what the clean-up discards) returns
+    at its status guard and leaves the state alone: the iterations of the live run's deactivation loops over children that
+    the aged run no longer lists change nothing -/
+theorem deactivating_a_discardable_instance_is_a_noop (fuel : Nat) (c : FUid) (scores : List Score) (s : VM) (x : InstX) (i : Inst)
+    (hx : OMap.lookup c s.r.fx = some x) (ha : x.activated = 0) (hi : findInst s.ixs.ix c = some i) (hd : i.status.done = true) :
+    abortFlow (fuel + 1) c scores true s = .ok () s := abortFlow_done_noop fuel c scores s x i hx ha hi hd
+
+theorem aged_set_flow_status {rm : List FUid} {s s' : VM} (h : Aged rm s s') {f : FUid} (hk : keepB rm f = true) (st : CoreIndex.FlowStatus) :
+    Sim2 rm (fun _ _ => True) (setFlowStatus f st) (setFlowStatus f st) s s' := sim_setFlowStatus h hk st
+
+theorem aged_drop_heads {rm : List FUid} {s s' : VM} (h : Aged rm s s') {f : FUid} (hk : keepB rm f = true) :
+    Sim2 rm (fun _ _ => True) (dropHeads f) (dropHeads f) s s' := sim_dropHeads h hk
+
+/-! non-vacuity: `main` waits on a head, `d` (child of `main`) finished long ago and holds no head; the aged state has
+    lost `d`, `main`'s child list and the `flow_id_states` entry of `sub` are filtered, the clock is 7 s later -/
+def ixLive : IxS :=
+  ((((({} : IxS).apply (.addInst "m" "h0" (some "E")) (by decide)).apply (.addInst "d" "h1" none) (by decide)).apply
+    (.dropHeads "d") (by decide)).apply (.setFlowStatus "d" .finished) (by decide))
+def ixAged : IxS := ixLive.apply (.removeInst "d") (by decide)
+def xm : InstX := { flowId := "main", loopId := some "l", hierPos := "0", childFlowUids := ["d"], statusUpdated := 0 }
+def xd : InstX := { flowId := "sub", loopId := some "l", hierPos := "0.0", parentUid := some "m", statusUpdated := 1 }
+def sLive : VM := { ixs := ixLive, r := { prog := ⟨[]⟩, fx := [("m", xm), ("d", xd)], idStates := [("main", ["m"]), ("sub", ["d"])], clock := 10 } }
+def sAged : VM := { ixs := ixAged, r := { prog := ⟨[]⟩, fx := [("m", { xm with childFlowUids := [] })], idStates := [("main", ["m"]), ("sub", [])], clock := 17 } }
+
+theorem aged_example : Aged ["d"] sLive sAged where
+  insts := by rfl
+  index := by rfl
+  rev := by rfl
+  fxKept := by
+    intro f hk
+    by_cases hm : f = "m"
+    · subst hm
+      exact ⟨by rfl, by decide⟩
+    · have hd : f ≠ "d" := by intro e; subst e; simp [keepB] at hk
+      simp [sLive, sAged, OMap.lookup, ORel, Ne.symm hm, Ne.symm hd]
+  fxGone := by
+    intro f hk
+    have : f = "d" := by simpa [keepB] using hk
+    subst this; rfl
+  fxOrder := by rfl
+  hx := rfl
+  prog := rfl
+  idStates := by rfl
+  actionsSub := by intro u a h; simp [sAged, OMap.lookup] at h
+  actionsKept := by intro f x _ _ au _; rfl
+  queue := rfl
+  outgoing := rfl
+  gctx := rfl
+  events := rfl
+  mainUid := rfl
+  nextUid := rfl
+  choices := rfl
+  choiceLog := rfl
+  lastEvents := rfl
+  cleared := rfl
+  caught := rfl
+  clock := by decide
+  rmDone := by
+    intro u hu i hi
+    have : u = "d" := by simpa using hu
+    subst this
+    have : findInst sLive.ixs.ix "d" = some { uid := "d", status := .finished, heads := [] } := by rfl
+    rw [this] at hi; injection hi with hi; subst hi; rfl
+
+example : ActParentsKept ["d"] sLive := by
+  intro f x hk hl ha p hp
+  by_cases hm : f = "m"
+  · subst hm
+    have : x = xm := by simpa [sLive, OMap.lookup] using hl.symm
+    subst this; cases hp
+  · have hd : f ≠ "d" := by intro e; subst e; simp [keepB] at hk
+    simp [sLive, OMap.lookup, Ne.symm hm, Ne.symm hd] at hl
+
+example : OMap.lookup "d" sLive.r.fx = some xd ∧ xd.activated = 0 ∧
+    findInst sLive.ixs.ix "d" = some { uid := "d", status := .finished, heads := [] } := ⟨rfl, rfl, by rfl⟩
+
+example : keepB ["d"] "m" = true ∧ SimpleOpOn "m" (.setFlowStatus "m" .started) := ⟨by decide, .inl ⟨_, rfl⟩⟩
+example : keepB ["d"] (opTarget (.setPos "m" "h0" 1 (some "E2"))) = true ∧ isRemove (.setPos "m" "h0" 1 (some "E2")) = false :=
+  ⟨by decide, rfl⟩
+
+/-- **`eval_expression`** (every expression form) and the argument evaluation of a kept instance: same value / same Python
+    exception in related states, or the model gives up -/
+theorem aged_eval_agrees {rm : List FUid} (c : EvalCtx) (fuel : Nat) (e : Expr) {f : FUid} (hk : keepB rm f = true)
+    (args : List (String × Expr)) :
+    Diag rm (evalExpr c fuel e) ∧ Diag rm (evalBase c fuel e) ∧ Diag rm (evalIn f e) ∧ Diag rm (evalArgs f args) :=
+  ⟨(diag_eval c fuel).1 e, (diag_eval c fuel).2 e, diag_evalIn hk e, diag_evalArgs hk args⟩
+
+/-- the context of a kept instance: attribute access on any value, `flow_state.context`, `context.update` -/
+theorem aged_context_access {rm : List FUid} (v : Val) (a : String) (l : Bool) {f : FUid} (hk : keepB rm f = true) (k : String) (w : Val)
+    {s s' : VM} (h : Aged rm s s') :
+    Diag rm (attrOf v a l) ∧ Diag rm (getCtx f) ∧ Sim2U rm (fun _ _ => True) (setCtxVar f k w) (setCtxVar f k w) s s' :=
+  ⟨diag_attrOf v a l, diag_getCtx hk, sim_setCtxVar h hk k w⟩
+
+/-- `get_event_name_from_element` / `get_event_from_element` evaluated for a kept instance (incl. `$ref.Finished()` on flow and
+    action objects, throw-away instances for `FlowName.Started()` patterns) -/
+theorem aged_events_agree {rm : List FUid} {f : FUid} (hk : keepB rm f = true) (spec : Spec) (isMatch : Bool) :
+    Diag rm (getEventName f spec) ∧ Diag rm (getEvent f spec isMatch) ∧ Diag rm (flowObjOf f) :=
+  ⟨diag_getEventName hk spec, diag_getEvent hk spec isMatch, diag_flowObjOf hk⟩
+
+/-- `head.position = p` and `head.status = st` on a head of a kept instance: setter, `_flow_head_changed` (the element name is
+    evaluated in the state), the index write — and the branch where the callback raises after the head was unregistered -/
+theorem aged_head_writes {rm : List FUid} {k : CoreIndex.Key} (hk : keepB rm k.1 = true) (p : Nat) (st : HeadStatus) :
+    Diag rm (setHeadPos k p) ∧ Diag rm (setHeadStatus k st) ∧ Diag rm (nameFor k.1 p st) :=
+  ⟨diag_setHeadPos hk p, diag_setHeadStatus hk st, diag_nameFor hk p st⟩
+
+/-- `_update_action_status_by_event` — a loop over ALL instances: the discarded ones are done, hence not listening, hence
+    skipped by the live run (`sim_forIn_filter`); the others refer to the same action objects in both tables -/
+theorem aged_update_action_status {rm : List FUid} (e : Match.Ev) : Diag rm (updateActionStatusByEvent e) :=
+  diag_updateActionStatusByEvent e
+
+/-- `_generate_umim_event` (outgoing event appended, action statuses updated), the `FlowFailed` event of a kept instance, and
+    releasing an action a kept instance refers to (`EndScope`, `_abort_flow`, `_finish_flow`) -/
+theorem aged_outgoing_and_release {rm : List FUid} (e : Match.Ev) {f : FUid} (hk : keepB rm f = true) (scores : List Score)
+    {s s' : VM} (h : Aged rm s s') {x : InstX} (hx : OMap.lookup f s.r.fx = some x) {au : String} (hau : au ∈ x.actionUids) :
+    Diag rm (generateUmimEvent e) ∧ Diag rm (failedEvent f scores) ∧ Sim2U rm Eq (releaseAction au) (releaseAction au) s s' :=
+  ⟨diag_generateUmimEvent e, diag_failedEvent hk scores, sim_releaseAction h hk hx hau⟩
+
+/-- the restart of an activated flow at the end of `_abort_flow` / `_finish_flow` (needs I2: the parent of an activated instance
+    is kept) -/
+theorem aged_restart_activated {rm : List FUid} {s s' : VM} (h : Aged rm s s') (hp : ActParentsKept rm s) {f : FUid}
+    (hk : keepB rm f = true) (scores : List Score) (deactivate : Bool) :
+    Sim2U rm Eq (restartActivated f scores deactivate) (restartActivated f scores deactivate) s s' :=
+  sim_restartActivated h hp hk scores deactivate
+
+/-- what `Diag` says, spelled out on the non-vacuity pair: running `setHeadPos ("m","h0") 1` in `sLive` and in `sAged` -/
+example : Sim2U ["d"] Eq (setHeadPos ("m", "h0") 1) (setHeadPos ("m", "h0") 1) sLive sAged :=
+  (aged_head_writes (rm := ["d"]) (k := ("m", "h0")) (by decide) 1 .active).1 sLive sAged aged_example
+
+end T3proved
+
+/-! ## T3 — the full statement over `CoreVM` (the bisimulation itself is NOT proved; decided by correspondence) -/
 
 section T3
 open NemoVerif.CoreVM
